@@ -352,7 +352,7 @@ static int Range_Show(var self, var output, int pos) {
   pos = print_to(output, pos, "<'Range' At 0x%p [", self);
   var curr = Range_Iter_Init(self);
   while (curr isnt Terminal) {
-    pos = print_to(output, pos, "%i", curr);
+    pos = print_to(output, pos, "%li", curr);
     curr = Range_Iter_Next(self, curr);
     if (curr isnt Terminal) { pos = print_to(output, pos, ", "); }
   }
